@@ -16,6 +16,7 @@ from .units import f_replay
 from .units import s_replay
 from .units.f import UnitF
 from .units import r_replay
+import functools as _ft
 
 
 def c06_witness(pid, fails, repo):
@@ -30,6 +31,12 @@ def c06_witness(pid, fails, repo):
     mm = [m for m in res['mismatches'] if m['carrier'] in carriers or None in carriers or 'check_bounds' in ' '.join(f.obligation for f in fails)]
     # do not present the known String/i128 numerals as the witness of some other failure
     mm = [m for m in mm if '170141183460469231731687303715884105728' not in m['value']] or []
+    # a witness of "accepts every valid value" is a valid value that was rejected, and vice versa
+    clauses = {f.obligation.rsplit('#', 1)[-1] for f in fails}
+    if clauses == {'accepts-valid'}:
+        mm = [m for m in mm if m['expected_ok']]
+    elif clauses == {'rejects-invalid'}:
+        mm = [m for m in mm if not m['expected_ok']]
     if mm:
         out['found'] = True
         out['input'] = mm[0]
@@ -245,7 +252,7 @@ def l3_witness(pid, fails, repo):
     if g['status'] != 'OK':
         return out
     em = Emitted(g['out'])
-    m = re.search(r'(?:shape:|sig:|emitted::|wire:|ns:|order:)(?:(\w+)::)?(\w+)', f.obligation)
+    m = re.search(r'(?:shape:|sig:|emitted::|wire:|ns:|order:|decl:)(?:(\w+)::)?(\w+)', f.obligation)
     names = [x for x in (m.groups() if m else ()) if x]
     shown = []
     for it in em.items:
@@ -255,6 +262,13 @@ def l3_witness(pid, fails, repo):
             for cc in c.children:
                 if cc.kind == 'fn' and any(n == cc.name for n in names):
                     shown.append(cc.text[:800])
+    if f.obligation.endswith('#member-types-resolve'):
+        # replay: the freshly emitted file still contains the line that names the missing type
+        for fl in fails:
+            for e in fl.exits:
+                if e.get('what') == 'emitted line' and e.get('text') and e['text'] in em.src:
+                    k = em.src.index(e['text'])
+                    shown.append(em.src[max(0, em.src.rfind('pub struct', 0, k)):k + len(e['text'])][:1200])
     out['emitted_items'] = shown[:6]
     out['schema'] = open(path, encoding='utf-8').read()[:6000]
     out['expectation'] = f.message
@@ -321,8 +335,18 @@ def c10_witness(pid, fails, repo):
     return out
 
 
+def c10_extra(pid, tier, seed, runs):
+    return l3run.run_c10(pid, tier, seed, runs)
+
+
+def c10_witness_all(pid, fails, repo):
+    if any(f.obligation.startswith(('decl:', 'index:')) for f in fails):
+        return l3_witness(pid, fails, repo)
+    return c10_witness(pid, fails, repo)
+
+
 PROPS['C10'] = {
-    'units': [UnitD], 'level': 'proof', 'design_ref': 'DESIGN.md 4.10', 'witness': c10_witness,
+    'units': [UnitD], 'level': 'proof', 'design_ref': 'DESIGN.md 4.10', 'witness': c10_witness_all, 'extra': c10_extra,
     'scope': 'the namespace table of RustDocument (doc.rs): make_abbreviated_namespace, add_namespace_reference, switch_to_target_namespace, '
              'extend, extend_no_duplicates, empty — for all URIs, prefixes and all sequences of registrations (invariant preserved by each mutator)',
     'level_text': 'Deductive proof (Verus/Z3) of a representation invariant `wf` over the real text of every mutator: URI<->prefix is a bijection over the '
@@ -364,6 +388,15 @@ def c13_witness(pid, fails, repo):
     w = getattr(f, 'witness', None)
     if w:
         return {'found': True, 'input': {'mutant': w['mutant'], 'observed': w['observed'], 'file_text': w.get('text', '')[:3000]}}
+    if f.unit == 'W' and f.obligation.endswith('#safety'):
+        # panic freedom of a writer: the fault-injection harness runs every document against a sink failing at each write index
+        res = w_replay.search(repo)
+        pan = [a for a in res['anomalies'] if a['observed'] == 'PANIC']
+        out = {'found': bool(pan), 'write_calls_injected': res['write_calls_injected']}
+        if pan:
+            out['input'] = pan[0]
+            out['more'] = pan[1:6]
+        return out
     return {'found': False}
 
 
